@@ -129,11 +129,38 @@ func verifSplit(s string) []string {
 	return append(out, cur)
 }
 
-func verifSameConfig(got, canon *types.Config) {
+// verifEqFold: equality up to ASCII letter case (a keyword written in another case inside a select
+// expression, e.g. "case when ... end", is kept as written in the item text; the evaluators match
+// keywords case-insensitively, so the item is the same item)
+func verifEqFold(a, b string) bool {
+	if len(a) != len(b) {
+		return false
+	}
+	eq := true
+	for i := 0; i < len(a); i++ {
+		x, y := a[i], b[i]
+		if x >= 'a' && x <= 'z' {
+			x -= 32
+		}
+		if y >= 'a' && y <= 'z' {
+			y -= 32
+		}
+		eq = zzverif.And(eq, x == y)
+	}
+	return eq
+}
+
+func verifSameConfig(got, canon *types.Config) { verifSameConfigFold(got, canon, false) }
+
+func verifSameConfigFold(got, canon *types.Config, foldItems bool) {
 	zzverif.Assert(len(got.SimpleFields) == len(canon.SimpleFields), "layout-keeps-select-items")
 	if len(got.SimpleFields) == len(canon.SimpleFields) {
 		for i := range canon.SimpleFields {
-			zzverif.Assert(got.SimpleFields[i] == canon.SimpleFields[i], "layout-keeps-select-item-text")
+			if foldItems {
+				zzverif.Assert(verifEqFold(got.SimpleFields[i], canon.SimpleFields[i]), "layout-keeps-select-item-text")
+			} else {
+				zzverif.Assert(got.SimpleFields[i] == canon.SimpleFields[i], "layout-keeps-select-item-text")
+			}
 		}
 	}
 	zzverif.Assert(got.Limit == canon.Limit && got.Distinct == canon.Distinct, "layout-keeps-limit-distinct")
@@ -240,7 +267,7 @@ func VerifC11ParseCase() {
 		return
 	}
 	zzverif.Cover("parsed")
-	verifSameConfig(got, canon)
+	verifSameConfigFold(got, canon, true) // only keyword tokens were re-cased
 	zzverif.Assert(cond == condC, "keyword-case-keeps-where-text")
 }
 
